@@ -124,7 +124,10 @@ def ops_for(fn):
 
 
 def coeff_pool(rng, extra=40):
-    pool = {0, 1, -1, 2, -2, 3, 5, -5, 7, 9, 10, -10, 11, 25, 50, 99, 100, 101, -101, 505, 1000, 12345, -12345, 999999}
+    pool = {0, 1, -1, 2, -2, 3, 5, -5, 7, 9, 10, -10, 11, 20, -20, 25, 30, 50, 70, -70, 99, 100, 101, -101, 505, 1000, 12345, -12345, 999999}
+    for k in range(0, 13):
+        pool.add(oracle.I128_MAX - k)
+        pool.add(-(oracle.I128_MAX - k))
     for k in range(1, 39):
         p = 10 ** k
         for v in (p, p - 1, p + 1, 5 * p, 5 * p - 1, 5 * p + 1, 15 * p, 25 * p, 3 * p):
@@ -176,6 +179,15 @@ def float_mid_decimals():
                             out.append('d:%d:%d' % (v, n))
                             out.append('d:%d:%d' % (-v, n))
     return out
+
+
+def canonical_text(c, n):
+    """text of |c| * 10^-n as Display prints it"""
+    t = str(abs(c))
+    if n == 0:
+        return t
+    t = t.rjust(n + 1, '0')
+    return t[:-n] + '.' + t[-n:]
 
 
 def gcd_worst_case_decimals():
@@ -281,6 +293,20 @@ def operands(kind, rng, budget):
                 '1.5e-99999999999999999999', '.5e-99999999999999999999', '0.00e-9223372036854775807', '1.5e-9223372036854775808',
                 '1.5e9223372036854775807', '15e-18446744073709551616', '1.5e-18446744073709551617', '0.1e-9223372036854775790',
                 '1.5e-170141183460469231731687303715884105728', '2.50e-340282366920938463463374607431768211456', '1.5e1', '15e-1', '١', '1é']
+        mx_ = oracle.I128_MAX
+        # zero coefficients with exponents that are small modulo 2^64 / 2^63 (a range check skipped for zero)
+        lits += ['0e-18446744073709551621', '-0.000e-18446744073709551631', '0e-36893488147419103232', '0e-18446744073709551616',
+                 '0.0e-18446744073709551617', '0e-9223372036854775813', '0e18446744073709551621', '0.00e-18446744073709551616']
+        # the ends of the coefficient range in every canonical representation (what to_string prints), and
+        # the same values written with an exponent
+        for v in (mx_, mx_ - 1, mx_ - 5, mx_ + 1, 10 ** 38, 10 ** 38 - 1, mx_ - mx_ % 10 ** 8, mx_ - mx_ % 10 ** 8 - 1):
+            for n in range(0, 19):
+                t = canonical_text(v, n)
+                lits.append(t)
+                lits.append('-' + t)
+        for k in (1, 2, 3, 9, 18):
+            for v in (mx_ // 10 ** k, mx_ // 10 ** k + 1, mx_ // 10 ** k - 1):
+                lits += ['%de%d' % (v, k), '-%de%d' % (v, k), '%d.%de%d' % (v // 10, v % 10, k + 1)]
         for _ in range(40):
             k = rng.choice([1, 5, 18, 19, 37, 38, 39, 40, 41, 77])
             ds = ''.join(rng.choice('0123456789') for _ in range(k))
@@ -356,7 +382,9 @@ def _is_extreme(x):
     if abs(v) <= 2:
         return True
     a = abs(v)
-    return any(a in (2 ** (b - 1) - 1, 2 ** (b - 1), 2 ** (b - 1) - 2, 2 ** b - 1) for b in (8, 16, 32, 64, 128))
+    if a in (10, 20, 30, 70):
+        return True
+    return any(0 <= (2 ** (b - 1) - 1) - a <= 12 or a in (2 ** (b - 1), 2 ** b - 1) for b in (8, 16, 32, 64, 128))
 
 
 def run_batch(lines, profile='dev', _depth=0):
@@ -437,8 +465,8 @@ def _search(pid, r, d, key, tier, seed, profile_pair=None, budget=None, combos=N
                 # the extreme values of both sides are crossed exhaustively (not sampled): differences of one unit
                 # at the ends of the coefficient range need one specific partner
                 if rk:
-                    ext_l = [x for x in ls if _is_extreme(x)][:40]
-                    ext_r = [x for x in rs if _is_extreme(x)][:40]
+                    ext_l = [x for x in ls if _is_extreme(x)][:90]
+                    ext_r = [x for x in rs if _is_extreme(x)][:90]
                     for l in ext_l:
                         for rr in ext_r:
                             n = ns[0] if len(ns) == 1 else rng.choice(ns)
